@@ -108,6 +108,8 @@ type Exec struct {
 	deadline  time.Time // execution budget of the target
 	steps     int
 	loopSeen, loopBack map[string]bool // loops cut by invariants / whose back edge was reached
+	callGuards   map[string]bool // call sites that already carry a vacuity guard
+	callGuardSeq int
 	ropes map[*Object]*rope // how byte strings were put together by successive writes (models_buf.go)
 	assumes   []*Term
 	obls      []*Obligation
@@ -318,6 +320,9 @@ func (x *Exec) oblige(class, label string, goal *Term, pos token.Pos) {
 	x.obls = append(x.obls, o)
 	if os.Getenv("GOVC_DEBUG_OBL") != "" {
 		fmt.Fprintf(os.Stderr, "OBL %s trivial=%v pc=%s goal=%s\n", name, o.Trivial, x.pc().Short(), goal.Short())
+	}
+	if os.Getenv("GOVC_DEBUG_ASSUME") != "" && goal.IsFalse() {
+		fmt.Fprintf(os.Stderr, "OBLIGE-FALSE %s pc=%s\n", name, x.pc().Short())
 	}
 	// later obligations may rely on this one (not on a vacuity guard: its goal is "false")
 	if class != "V" {
